@@ -245,7 +245,7 @@ theorem write_values_core (c : Core) (md : Mode) (post : Facts) :
 
 theorem inv_write_values (post : Facts) (md : Mode) (hmd : md ≠ .same) {s : St} {a : Abs} (h : Inv s a) :
     Inv ⟨s.core.write .values md post, s.cache.onWrite s.core .values md⟩ (absEvent (.write .values md) a) := by
-  obtain ⟨pA, pC, pS, pW, dA, dC, dS, dV, dM, dU, dR, va, rt⟩ := a
+  obtain ⟨pA, pC, pS, pW, dA, dC, dS, dV, dM, dU, dR, va, rt, rq⟩ := a
   obtain ⟨h1, h2, h3, h4, h5, h6⟩ := h
   obtain ⟨ka, kc, ks, kw⟩ := onWrite_values s.cache s.core md
   obtain ⟨cm, cu, cr, cf⟩ := write_values_core s.core md post
@@ -256,7 +256,7 @@ theorem inv_write_values (post : Facts) (md : Mode) (hmd : md ≠ .same) {s : St
           (e'.ro ≠ s.core.ro → dR = true)) →
       (∀ b, va' = some b → (s.core.write .values md post).varr = b) →
       Inv ⟨s.core.write .values md post, s.cache.onWrite s.core .values md⟩
-        ⟨pA, pC, pS, pW, dA, dC, dS, dV', dM, dU, dR, va', rt⟩ := by
+        ⟨pA, pC, pS, pW, dA, dC, dS, dV', dM, dU, dR, va', rt, rq⟩ := by
     intro dV' va' hw hv
     refine ⟨?_, ?_, ?_, ?_, hv, ?_⟩
     · intro x hx; rw [ka] at hx; simpa [cm] using h1 x hx
@@ -266,7 +266,7 @@ theorem inv_write_values (post : Facts) (md : Mode) (hmd : md ≠ .same) {s : St
     · simpa [cr] using h6
   -- a write that may rebind: the wod is flagged
   have dirty : Inv ⟨s.core.write .values md post, s.cache.onWrite s.core .values md⟩
-      ⟨pA, pC, pS, pW, dA, dC, dS, dV || pW, dM, dU, dR, none, rt⟩ := by
+      ⟨pA, pC, pS, pW, dA, dC, dS, dV || pW, dM, dU, dR, none, rt, rq⟩ := by
     apply base
     · intro e' he'
       obtain ⟨e, he, hor⟩ := kw e' he'
@@ -281,7 +281,7 @@ theorem inv_write_values (post : Facts) (md : Mode) (hmd : md ≠ .same) {s : St
   -- a write in place: nothing changes for the cache
   have inplace : md.rebinds s.core.varr = false → ∀ va', (∀ b, va' = some b → (s.core.write .values md post).varr = b) →
       Inv ⟨s.core.write .values md post, s.cache.onWrite s.core .values md⟩
-        ⟨pA, pC, pS, pW, dA, dC, dS, dV, dM, dU, dR, va', rt⟩ := by
+        ⟨pA, pC, pS, pW, dA, dC, dS, dV, dM, dU, dR, va', rt, rq⟩ := by
     intro hr va' hv
     apply base _ _ _ hv
     intro e' he'
@@ -444,8 +444,8 @@ theorem inv_freeze {s : St} {a : Abs} (h : Inv s a) :
 
 
 /-- a content-preserving rebinding (`self._mask_ = self._mask_.copy()`): only the aliasing of a cached wod changes -/
-theorem inv_write_same (post : Facts) (at_ : Attr) {s : St} {a : Abs} (h : Inv s a) :
-    Inv ⟨s.core.sameRep at_ post, s.cache.onWriteSame s.core at_⟩ (absEvent (.write at_ .same) a) := by
+theorem inv_write_same_core (at_ : Attr) {s : St} {a : Abs} (h : Inv s a) :
+    Inv ⟨s.core, s.cache.onWriteSame s.core at_⟩ (absEvent (.write at_ .same) a) := by
   obtain ⟨h1, h2, h3, h4, h5, h6⟩ := h
   cases at_ with
   | mask =>
@@ -491,6 +491,12 @@ theorem inv_write_same (post : Facts) (at_ : Attr) {s : St} {a : Abs} (h : Inv s
     exact ⟨p, v, m, u, by simp [absEvent, p]⟩
   | derivs => exact ⟨h1, h2, h3, h4, h5, h6⟩
 
+/-- … also when the representation fact of the mask is updated (`Inv` does not look at it) -/
+theorem inv_write_same (post : Facts) (at_ : Attr) {s : St} {a : Abs} (h : Inv s a) :
+    Inv ⟨s.core.sameRep at_ post, s.cache.onWriteSame s.core at_⟩ (absEvent (.write at_ .same) a) := by
+  have k := inv_write_same_core at_ h
+  cases at_ <;> exact k
+
 theorem inv_assume (b : Bool) {s : St} {a : Abs} (h : Inv s a) :
     Inv { s with core := { s.core with varr := b } } (absEvent (.assumeVarr b) a) := by
   obtain ⟨h1, h2, h3, h4, _, h6⟩ := h
@@ -518,6 +524,7 @@ theorem inv_event (post : Facts) (e : Event) (fills : List Query) {s : St} {a : 
   | excAt => exact h
   | call n => exact h
   | mayRaise n => exact h
+  | maskRepChanged => exact h
 
 theorem inv_path (post : Facts) (es : List Event) (fs : List (List Query)) {s : St} {a : Abs} (h : Inv s a) :
     Inv (execPath true post es fs s) (absPath es a) := by
@@ -540,12 +547,13 @@ theorem inv_path (post : Facts) (es : List Event) (fs : List (List Query)) {s : 
     | excAt => exact ih fs (inv_event post _ [] h)
     | call n => exact ih fs (inv_event post _ [] h)
     | mayRaise n => exact ih fs (inv_event post _ [] h)
+    | maskRepChanged => exact ih fs (inv_event post _ [] h)
 
 /-- a clean abstract value at the end of a path means the state is `Good` again -/
 theorem good_of_clean {s : St} {a : Abs} (h : Inv s a) (hc : a.clean = true) : Good s := by
   obtain ⟨h1, h2, h3, h4, _, _⟩ := h
-  simp only [Abs.clean, Bool.and_eq_true, Bool.not_eq_true'] at hc
-  obtain ⟨⟨⟨⟨⟨⟨c1, c2⟩, c3⟩, c4⟩, c5⟩, c6⟩, c7⟩ := hc
+  simp only [Abs.clean, Abs.cleanD, Bool.and_eq_true, Bool.not_eq_true'] at hc
+  obtain ⟨⟨⟨⟨⟨⟨⟨c1, c2⟩, c3⟩, c4⟩, c5⟩, c6⟩, c7⟩, _⟩ := hc
   refine ⟨?_, ?_, ?_, ?_, ?_, ?_⟩
   · intro x hx; refine ⟨rfl, fun q => ?_⟩
     have := (h1 x hx).2 q; simp [c1] at this
@@ -621,6 +629,7 @@ theorem execPath_core (en : Bool) (post : Facts) (es : List Event) (fs : List (L
     | excAt => simp only [execPath, corePath]; rw [ih, execEvent_core]
     | call n => simp only [execPath, corePath]; rw [ih, execEvent_core]
     | mayRaise n => simp only [execPath, corePath]; rw [ih, execEvent_core]
+    | maskRepChanged => simp only [execPath, corePath]; rw [ih, execEvent_core]
 
 /-- with the cache disabled every query is a recomputation from the current arrays -/
 theorem query_ans_disabled (q : Query) (s : St) : (query false q s).1 = s.core.recompute q := by
@@ -705,52 +714,59 @@ structure Abs.LE (a b : Abs) : Prop where
   dWodR : a.dWodR = true → b.dWodR = true
   varr : ∀ x, b.varr = some x → a.varr = some x
   roTrue : b.roTrue = true → a.roTrue = true
+  rAnti : a.rAnti = true → b.rAnti = true
 
 theorem Abs.le_iff (a b : Abs) : a.le b = true ↔ Abs.LE a b := by
-  obtain ⟨a1, a2, a3, a4, a5, a6, a7, a8, a9, a10, a11, av, ar⟩ := a
-  obtain ⟨b1, b2, b3, b4, b5, b6, b7, b8, b9, b10, b11, bv, br⟩ := b
+  obtain ⟨a1, a2, a3, a4, a5, a6, a7, a8, a9, a10, a11, av, ar, aq⟩ := a
+  obtain ⟨b1, b2, b3, b4, b5, b6, b7, b8, b9, b10, b11, bv, br, bq⟩ := b
   constructor
   · intro h
     simp only [Abs.le, Bool.and_eq_true, Bool.or_eq_true, Bool.not_eq_true'] at h
-    obtain ⟨⟨⟨⟨⟨⟨⟨⟨⟨⟨⟨⟨h1, h2⟩, h3⟩, h4⟩, h5⟩, h6⟩, h7⟩, h8⟩, h9⟩, h10⟩, h11⟩, hv⟩, hr⟩ := h
-    refine ⟨?_, ?_, ?_, ?_, ?_, ?_, ?_, ?_, ?_, ?_, ?_, ?_, ?_⟩ <;> simp only <;> grind
-  · intro ⟨h1, h2, h3, h4, h5, h6, h7, h8, h9, h10, h11, hv, hr⟩
-    simp only at h1 h2 h3 h4 h5 h6 h7 h8 h9 h10 h11 hv hr
+    obtain ⟨⟨⟨⟨⟨⟨⟨⟨⟨⟨⟨⟨⟨h1, h2⟩, h3⟩, h4⟩, h5⟩, h6⟩, h7⟩, h8⟩, h9⟩, h10⟩, h11⟩, hv⟩, hr⟩, hq⟩ := h
+    refine ⟨?_, ?_, ?_, ?_, ?_, ?_, ?_, ?_, ?_, ?_, ?_, ?_, ?_, ?_⟩ <;> simp only <;> grind
+  · intro ⟨h1, h2, h3, h4, h5, h6, h7, h8, h9, h10, h11, hv, hr, hq⟩
+    simp only at h1 h2 h3 h4 h5 h6 h7 h8 h9 h10 h11 hv hr hq
     simp only [Abs.le, Bool.and_eq_true, Bool.or_eq_true, Bool.not_eq_true']
-    refine ⟨⟨⟨⟨⟨⟨⟨⟨⟨⟨⟨⟨?_, ?_⟩, ?_⟩, ?_⟩, ?_⟩, ?_⟩, ?_⟩, ?_⟩, ?_⟩, ?_⟩, ?_⟩, ?_⟩, ?_⟩ <;> grind
+    refine ⟨⟨⟨⟨⟨⟨⟨⟨⟨⟨⟨⟨⟨?_, ?_⟩, ?_⟩, ?_⟩, ?_⟩, ?_⟩, ?_⟩, ?_⟩, ?_⟩, ?_⟩, ?_⟩, ?_⟩, ?_⟩, ?_⟩ <;> grind
 
-theorem Abs.LE.refl (a : Abs) : Abs.LE a a := ⟨id, id, id, id, id, id, id, id, id, id, id, fun _ h => h, id⟩
+theorem Abs.LE.refl (a : Abs) : Abs.LE a a := ⟨id, id, id, id, id, id, id, id, id, id, id, fun _ h => h, id, id⟩
 
 theorem Abs.LE.trans {a b c : Abs} (h : Abs.LE a b) (g : Abs.LE b c) : Abs.LE a c :=
   ⟨fun x => g.pAnti (h.pAnti x), fun x => g.pCorn (h.pCorn x), fun x => g.pSlic (h.pSlic x), fun x => g.pWod (h.pWod x),
    fun x => g.dAnti (h.dAnti x), fun x => g.dCorn (h.dCorn x), fun x => g.dSlic (h.dSlic x),
    fun x => g.dWodV (h.dWodV x), fun x => g.dWodM (h.dWodM x), fun x => g.dWodU (h.dWodU x),
-   fun x => g.dWodR (h.dWodR x), fun x hx => h.varr x (g.varr x hx), fun x => h.roTrue (g.roTrue x)⟩
+   fun x => g.dWodR (h.dWodR x), fun x hx => h.varr x (g.varr x hx), fun x => h.roTrue (g.roTrue x),
+   fun x => g.rAnti (h.rAnti x)⟩
 
 theorem Abs.LE.top (a : Abs) : Abs.LE a Abs.top := by
   constructor <;> simp [Abs.top]
 
 theorem Abs.LE.join_left (a b : Abs) : Abs.LE a (a.join b) := by
-  obtain ⟨a1, a2, a3, a4, a5, a6, a7, a8, a9, a10, a11, av, ar⟩ := a
-  obtain ⟨b1, b2, b3, b4, b5, b6, b7, b8, b9, b10, b11, bv, br⟩ := b
+  obtain ⟨a1, a2, a3, a4, a5, a6, a7, a8, a9, a10, a11, av, ar, aq⟩ := a
+  obtain ⟨b1, b2, b3, b4, b5, b6, b7, b8, b9, b10, b11, bv, br, bq⟩ := b
   constructor <;> simp only [Abs.join] <;> grind
 
 theorem Abs.LE.join_right (a b : Abs) : Abs.LE b (a.join b) := by
-  obtain ⟨a1, a2, a3, a4, a5, a6, a7, a8, a9, a10, a11, av, ar⟩ := a
-  obtain ⟨b1, b2, b3, b4, b5, b6, b7, b8, b9, b10, b11, bv, br⟩ := b
+  obtain ⟨a1, a2, a3, a4, a5, a6, a7, a8, a9, a10, a11, av, ar, aq⟩ := a
+  obtain ⟨b1, b2, b3, b4, b5, b6, b7, b8, b9, b10, b11, bv, br, bq⟩ := b
   constructor <;> simp only [Abs.join] <;> grind
 
 theorem Abs.LE.clean {a b : Abs} (h : Abs.LE a b) (c : b.clean = true) : a.clean = true := by
-  obtain ⟨_, _, _, _, h5, h6, h7, h8, h9, h10, h11, _, _⟩ := h
-  simp only [Abs.clean, Bool.and_eq_true, Bool.not_eq_true'] at c ⊢
+  obtain ⟨_, _, _, _, h5, h6, h7, h8, h9, h10, h11, _, _, hq⟩ := h
+  simp only [Abs.clean, Abs.cleanD, Bool.and_eq_true, Bool.not_eq_true'] at c ⊢
+  grind
+
+theorem Abs.LE.cleanD {a b : Abs} (h : Abs.LE a b) (c : b.cleanD = true) : a.cleanD = true := by
+  obtain ⟨_, _, _, _, h5, h6, h7, h8, h9, h10, h11, _, _, _⟩ := h
+  simp only [Abs.cleanD, Bool.and_eq_true, Bool.not_eq_true'] at c ⊢
   grind
 
 /-- every abstract transfer function is monotone -/
 theorem absEvent_mono (e : Event) {a b : Abs} (h : Abs.LE a b) : Abs.LE (absEvent e a) (absEvent e b) := by
-  obtain ⟨a1, a2, a3, a4, a5, a6, a7, a8, a9, a10, a11, av, ar⟩ := a
-  obtain ⟨b1, b2, b3, b4, b5, b6, b7, b8, b9, b10, b11, bv, br⟩ := b
-  obtain ⟨h1, h2, h3, h4, h5, h6, h7, h8, h9, h10, h11, hv, hr⟩ := h
-  simp only at h1 h2 h3 h4 h5 h6 h7 h8 h9 h10 h11 hv hr
+  obtain ⟨a1, a2, a3, a4, a5, a6, a7, a8, a9, a10, a11, av, ar, aq⟩ := a
+  obtain ⟨b1, b2, b3, b4, b5, b6, b7, b8, b9, b10, b11, bv, br, bq⟩ := b
+  obtain ⟨h1, h2, h3, h4, h5, h6, h7, h8, h9, h10, h11, hv, hr, hq⟩ := h
+  simp only at h1 h2 h3 h4 h5 h6 h7 h8 h9 h10 h11 hv hr hq
   cases e with
   | write at_ md =>
     cases at_ <;> cases md <;> (constructor <;> simp only [absEvent] <;> grind)
@@ -834,30 +850,43 @@ theorem exitsOK_anti (ex : List String) (es : List Event) {a b : Abs} (h : Abs.L
   | cons e es ih =>
     cases e with
     | mayRaise site =>
-      simp only [exitsOK, Bool.and_eq_true, Bool.or_eq_true] at hb ⊢
-      refine ⟨?_, ih h hb.2⟩
-      rcases hb.1 with c | c
-      · exact Or.inl c
-      · exact Or.inr (h.clean c)
+      simp only [exitsOK, Bool.and_eq_true, Bool.or_eq_true, Bool.not_eq_true'] at hb ⊢
+      refine ⟨⟨?_, ?_⟩, ih h hb.2⟩
+      · rcases hb.1.1 with c | c
+        · exact Or.inl c
+        · exact Or.inr (h.cleanD c)
+      · rcases hb.1.2 with c | c
+        · exact Or.inl c
+        · right
+          cases hq : a.rAnti with
+          | false => rfl
+          | true => rw [h.rAnti hq] at c; exact absurd c (by simp)
     | _ => exact ih (absEvent_mono _ h) hb
 
 /-- at a non-exempt `mayRaise` point of a path that passes the check, the prefix executed so far leaves
     nothing stale -/
 theorem exitsOK_prefix (ex : List String) (pre rest : List Event) (site : String) (a : Abs)
-    (h : exitsOK ex (pre ++ .mayRaise site :: rest) a = true) (hs : ex.contains site = false) :
+    (h : exitsOK ex (pre ++ .mayRaise site :: rest) a = true) (hs : ex.contains site = false)
+    (hr : ex.contains ("rep:" ++ site) = false) :
     (absPath pre a).clean = true := by
   rw [exitsOK_append] at h
-  simp only [exitsOK, Bool.and_eq_true, Bool.or_eq_true, hs] at h
-  rcases h.2.1 with c | c
-  · exact absurd c (by simp)
-  · exact c
+  simp only [exitsOK, Bool.and_eq_true, Bool.or_eq_true, hs, hr, Bool.not_eq_true'] at h
+  simp only [Abs.clean, Bool.and_eq_true, Bool.not_eq_true']
+  refine ⟨?_, ?_⟩
+  · rcases h.2.1.1 with c | c
+    · exact absurd c (by simp)
+    · exact c
+  · rcases h.2.1.2 with c | c
+    · rcases c with c | c <;> exact absurd c (by simp)
+    · exact c
 
 theorem pathExitsOK_prefix (ex : List String) (pre rest : List Event) (site : String)
-    (h : pathExitsOK ex (pre ++ .mayRaise site :: rest) = true) (hs : ex.contains site = false) :
+    (h : pathExitsOK ex (pre ++ .mayRaise site :: rest) = true) (hs : ex.contains site = false)
+    (hr : ex.contains ("rep:" ++ site) = false) :
     pathOK pre = true := by
   simp only [pathExitsOK, Bool.and_eq_true] at h
   simp only [pathOK, Bool.and_eq_true]
-  exact ⟨exitsOK_prefix ex pre rest site _ h.1 hs, exitsOK_prefix ex pre rest site _ h.2 hs⟩
+  exact ⟨exitsOK_prefix ex pre rest site _ h.1 hs hr, exitsOK_prefix ex pre rest site _ h.2 hs hr⟩
 
 /-- the value computed for a loop segment is above the entry value and is a post-fixpoint of every body -/
 theorem loop_postfix (alts : List (List Event)) (b : Abs) :
@@ -901,9 +930,9 @@ theorem segsExits_expands (ex : List String) {segs : List Seg} {es : List Event}
 
 theorem segsAllExits_prefix (ex : List String) {segs : List Seg} {pre rest : List Event} {site : String}
     (hc : segsAllExitsOK ex segs = true) (he : Expands segs (pre ++ .mayRaise site :: rest))
-    (hs : ex.contains site = false) : pathOK pre = true := by
+    (hs : ex.contains site = false) (hr : ex.contains ("rep:" ++ site) = false) : pathOK pre = true := by
   simp only [segsAllExitsOK, Bool.and_eq_true] at hc
-  apply pathExitsOK_prefix ex pre rest site _ hs
+  apply pathExitsOK_prefix ex pre rest site _ hs hr
   simp only [pathExitsOK, Bool.and_eq_true]
   exact ⟨segsExits_expands ex he (Abs.LE.refl _) hc.1, segsExits_expands ex he (Abs.LE.refl _) hc.2⟩
 
